@@ -488,6 +488,23 @@ impl Session {
                 let evs: Vec<String> = EVENTS.lock().unwrap().drain(..).collect();
                 if evs.is_empty() { "-".to_string() } else { evs.join("|") }
             }
+            b'M' => {
+                // <n> fresh iterators, each positioned on the first entry and dropped again (every
+                // freshly positioned iterator takes one read sample)
+                let n: usize = op[1..].parse().unwrap();
+                let mut bad = 0;
+                for _ in 0..n {
+                    match self.db().new_iterator(self.read_opts(None)) {
+                        Ok(mut it) => {
+                            if it.seek_to_first().is_err() {
+                                bad += 1;
+                            }
+                        }
+                        Err(_) => bad += 1,
+                    }
+                }
+                if bad == 0 { "ok".to_string() } else { format!("iter-errors:{}", bad) }
+            }
             b'E' => match self.db().get_descriptor(DatabaseDescriptor::Stats) {
                 Ok(s) => format!("stats:{}", s.len()),
                 Err(e) => err_class(&e),
